@@ -25,7 +25,7 @@ missing=sorted(base-ok)
 print(f"baseline {len(base&ok)}/{len(base)} passed" + ("" if not missing else " failed: "+", ".join(missing[:3])))
 PY
 )
-git diff > /tmp/confirm_$name.diff
+git diff HEAD > /tmp/confirm_$name.diff
 cd /; git -C /repo worktree remove --force "$wt"
 echo "$name: demo_clean=$c0 demo_mutant=$c1 tests: $tests"
 case "$tests" in *failed*|*error*) echo "$name: TESTS FAIL"; exit 7;; esac
